@@ -203,6 +203,7 @@ def _run_one(args):
         signal.alarm(0)
         signal.signal(signal.SIGALRM, old)
     acc.current = None
+    acc.notes = {k: v for k, v in acc.notes.items() if not k.startswith("_")}  # private scratch stays in the worker
     acc.extra["shard_wall_s_max"] = 0
     return idx, acc, time.time() - t0
 
